@@ -50,7 +50,26 @@ impl Property for C19 {
             1 => {
                 // xargs' own errors
                 sc.note = "own-error".into();
-                match rng.below(8) {
+                match rng.below(11) {
+                    8 => {
+                        // a numeric escape that does not fit in one byte is a bad option value
+                        sc.opts.push(Opt::Delim(rng.pick(&["\\x100", "\\x161", "\\0400", "\\0777", "\\x1ff", "\\x", "\\08"]).to_string()));
+                    }
+                    9 | 10 => {
+                        // -x with -L 1: every word fits, the line as a whole does not
+                        let base: usize = sc.cmd.iter().map(|c| c.len() + 1).sum();
+                        sc.opts.push(Opt::X);
+                        sc.opts.push(Opt::L(1));
+                        sc.opts.push(Opt::S(base + rng.urange(6, 9)));
+                        let m = rng.urange(0, 3);
+                        let mut inp = vec![];
+                        for i in 0..m {
+                            inp.extend_from_slice(format!("a{i}\n").as_bytes());
+                        }
+                        inp.extend_from_slice(b"ab cd ef gh\nzz\n");
+                        sc.input = B(inp);
+                        sc.outcomes = gen_outcomes(rng, m + 1, false);
+                    }
                     0 => sc.opts.push(Opt::N(0)),
                     1 => sc.opts.push(Opt::L(0)),
                     2 => sc.opts.push(Opt::S(0)),
